@@ -2,9 +2,10 @@ package tools
 
 import (
 	"bytes"
-	"github.com/git-lfs/git-lfs/v3/verifhook"
 	"io"
 	"os"
+
+	"github.com/git-lfs/git-lfs/v3/verifhook"
 )
 
 type CopyCallback func(totalSize int64, readSoFar int64, readSinceLast int) error
